@@ -48,6 +48,9 @@ impl Engine for Naive {
         truncated_size: usize,
         skew_delta: usize,
     ) {
+        #[cfg(feature = "verif-hooks")]
+        crate::verif_hooks::trace(crate::verif_hooks::ISA_PORTABLE, crate::verif_hooks::PRIM_FFT);
+
         debug_assert!(size.is_power_of_two());
         debug_assert!(truncated_size <= size);
 
@@ -80,6 +83,9 @@ impl Engine for Naive {
         truncated_size: usize,
         skew_delta: usize,
     ) {
+        #[cfg(feature = "verif-hooks")]
+        crate::verif_hooks::trace(crate::verif_hooks::ISA_PORTABLE, crate::verif_hooks::PRIM_IFFT);
+
         debug_assert!(size.is_power_of_two());
         debug_assert!(truncated_size <= size);
 
@@ -105,6 +111,9 @@ impl Engine for Naive {
     }
 
     fn mul(&self, x: &mut [[u8; 64]], log_m: GfElement) {
+        #[cfg(feature = "verif-hooks")]
+        crate::verif_hooks::trace(crate::verif_hooks::ISA_PORTABLE, crate::verif_hooks::PRIM_MUL);
+
         for chunk in x.iter_mut() {
             for i in 0..32 {
                 let lo = GfElement::from(chunk[i]);
